@@ -245,7 +245,7 @@ func c09(r *Report, s *Sem) {
 		detail := ""
 		for _, o := range origins {
 			call, _ := callOf(o)
-			if call == nil || call.Call.StaticCallee() == nil || call.Call.StaticCallee() != inter || inter == nil {
+			if call == nil || call.Call.StaticCallee() == nil || !sameFuncOrInstance(call.Call.StaticCallee(), inter) || inter == nil {
 				okAll = false
 				detail = "an offered element may come from " + describe(o) + " (not from the intersection of configured and supported)"
 				continue
@@ -310,35 +310,8 @@ func c09(r *Report, s *Sem) {
 		r.Undecided(R2, base+" / peer reply", p.pos(na.negDriver.Pos()), "reply of the options envelope not found")
 		return
 	}
-	lookupGuard := func(field string, paramType *types.Named) bool {
-		return condGuard(C.Block(), func(cd Cond) bool {
-			if cd.Op != token.ILLEGAL || !cd.True {
-				return false
-			}
-			ex, ok := stripConv(cd.Val).(*ssa.Extract)
-			if !ok || ex.Index != 1 {
-				return false
-			}
-			lk, ok := ex.Tuple.(*ssa.Lookup)
-			if !ok || !lk.CommaOk || !fieldOf(lk.Index, ses, field) {
-				return false
-			}
-			mm, ok := stripConv(lk.X).(*ssa.MakeMap)
-			if !ok {
-				return false
-			}
-			n, okAll := 0, true
-			for _, ref := range *mm.Referrers() {
-				if mu, ok := ref.(*ssa.MapUpdate); ok {
-					n++
-					pr := sliceElemParam(mu.Key)
-					if pr == nil || pr.Parent() != na.negDriver {
-						okAll = false
-					}
-				}
-			}
-			return okAll && n > 0
-		})
+	lookupGuard := func(field string, _ *types.Named) bool {
+		return offeredSetLookupGuard(C.Block(), na.negDriver, ses, field)
 	}
 	r.Check(R2, base+" / confirmation guarded by compression ∈ offer", p.instrPos(C), lookupGuard("Compression", nil), "ok edge of a lookup of ses.Compression in a set built only from the offered list")
 	r.Check(R2, base+" / confirmation guarded by encryption ∈ offer", p.instrPos(C), lookupGuard("Encryption", nil), "ok edge of a lookup of ses.Encryption in a set built only from the offered list")
@@ -1256,7 +1229,7 @@ func c10(r *Report, s *Sem) {
 	if ok2 {
 		for _, o := range sliceOrigins(neg) {
 			call, _ := callOf(o)
-			if call == nil || call.Call.StaticCallee() != inter {
+			if call == nil || !sameFuncOrInstance(call.Call.StaticCallee(), inter) {
 				ok2 = false
 				detail = "an element may come from " + describe(o)
 				continue
@@ -1296,6 +1269,7 @@ func checkIntersectExact(r *Report, s *Sem, R1 string) {
 		r.Undecided(R1, "anchor-unresolved:intersect", "-", "intersection helper not found")
 	} else {
 		contains := p.Func("contains")
+		usedMembership := false
 		okApp, nApp := true, 0
 		eachInstr(inter, func(in ssa.Instruction) {
 			c, ok := in.(*ssa.Call)
@@ -1316,10 +1290,12 @@ func checkIntersectExact(r *Report, s *Sem, R1 string) {
 					return false
 				}
 				call, _ := callOf(cd.Val)
-				if call == nil || call.Call.StaticCallee() != contains || contains == nil {
+				list, elem, isMember := membershipCall(p, call)
+				if !isMember {
 					return false
 				}
-				return stripConv(call.Call.Args[0]) == ssa.Value(inter.Params[1]) && el != nil && stripConv(call.Call.Args[1]) == stripConv(el)
+				usedMembership = true
+				return stripConv(list) == ssa.Value(inter.Params[1]) && el != nil && stripConv(elem) == stripConv(el)
 			})
 			// the element is taken from the first operand
 			fromFirst := false
@@ -1351,9 +1327,40 @@ func checkIntersectExact(r *Report, s *Sem, R1 string) {
 				}
 			}
 			r.Check(R1, "func contains / true only on an equality edge with the element", p.pos(contains.Pos()), okC, "membership helper must not report members that are not there")
-		} else {
+		} else if !usedMembership {
 			r.Undecided(R1, "anchor-unresolved:contains", "-", "membership helper not found")
+		} else {
+			r.Trivial(R1, "membership test / standard slices.Contains", p.pos(inter.Pos()), true, "the standard library's membership test is trusted")
 		}
 	}
 
+}
+
+// sameFuncOrInstance: f is g or an instantiation of the generic function g.
+func sameFuncOrInstance(f, g *ssa.Function) bool {
+	return f != nil && g != nil && (f == g || f.Origin() == g)
+}
+
+// membershipCall: call tests whether elem is an element of list — the library's own membership helper (checked by
+// checkIntersectExact) or the standard slices.Contains.
+func membershipCall(p *Prog, call *ssa.Call) (list, elem ssa.Value, ok bool) {
+	if call == nil || len(call.Call.Args) != 2 {
+		return nil, nil, false
+	}
+	f := call.Call.StaticCallee()
+	if f == nil {
+		return nil, nil, false
+	}
+	if c := p.Func("contains"); c != nil && sameFuncOrInstance(f, c) {
+		return call.Call.Args[0], call.Call.Args[1], true
+	}
+	if f.Pkg == nil {
+		if o := f.Origin(); o != nil && o.Pkg != nil && o.Pkg.Pkg.Path() == "slices" && o.Name() == "Contains" {
+			return call.Call.Args[0], call.Call.Args[1], true
+		}
+	}
+	if f.Pkg != nil && f.Pkg.Pkg.Path() == "slices" && f.Name() == "Contains" {
+		return call.Call.Args[0], call.Call.Args[1], true
+	}
+	return nil, nil, false
 }
